@@ -37,26 +37,54 @@ func runC02(c *Ctx) {
 					c.Viol("R02a", key, as.Pos(), "store to the pipe's data type outside SetDataType: %s — the type could change after it was first declared", c.src(as))
 					continue
 				}
-				// guard: dataType == "" (or len(dataType)==0) true, with no Unlock between the test and the store
+				// guard: dataType == "" (or len(dataType)==0) is known true at the store — from an
+				// enclosing if-arm or from an earlier `if dataType != "" { return }` exit; the field
+				// may have been read into a single-definition local first — and no Lock/Unlock lies
+				// between that read of the field and the store (one critical section)
+				defs := localDefs(info, fd.Body)
+				subject := func(e ast.Expr) bool { return isField(info, defs.resolve1(info, e), stdinT, "dataType") }
 				guarded := false
-				var guardIf *ast.IfStmt
-				for i := len(stack) - 1; i >= 0; i-- {
-					if is, ok := stack[i].(*ast.IfStmt); ok {
-						for _, f := range factsOf([]Guard{{Cond: is.Cond}}) {
-							if c.isEmptyTypeTest(info, f.E, f.True, func(e ast.Expr) bool { return isField(info, e, stdinT, "dataType") }) {
-								if i+1 < len(stack) && stack[i+1] == ast.Node(is.Body) {
-									guarded = true
-									guardIf = is
-								}
+				testPos := token.NoPos
+				for _, f := range factsOf(guardsAt(info, stack)) {
+					if !c.isEmptyTypeTest(info, f.E, f.True, subject) {
+						continue
+					}
+					guarded = true
+					tp := f.E.Pos()
+					ast.Inspect(f.E, func(x ast.Node) bool {
+						if id, ok := x.(*ast.Ident); ok {
+							if ds := defs[info.ObjectOf(id)]; len(ds) == 1 && ds[0] != nil && ds[0].Pos() < tp {
+								tp = ds[0].Pos()
 							}
 						}
+						return true
+					})
+					if testPos == token.NoPos || tp < testPos {
+						testPos = tp
 					}
 				}
-				sameCS := false
-				if guardIf != nil {
-					sameCS = true
-					ast.Inspect(guardIf.Body, func(x ast.Node) bool {
-						if call, ok := x.(*ast.CallExpr); ok && x.Pos() < as.Pos() {
+				sameCS := guarded
+				if guarded {
+					// arms that leave the function before the store (`if dataType != "" { Unlock(); return }`)
+					// are not on the way from the test to the store
+					exitArm := map[*ast.BlockStmt]bool{}
+					ast.Inspect(fd.Body, func(x ast.Node) bool {
+						if is, ok := x.(*ast.IfStmt); ok && is.Else == nil && terminates(info, is.Body.List) &&
+							!(is.Body.Pos() <= as.Pos() && as.End() <= is.Body.End()) {
+							if rs, isRet := is.Body.List[len(is.Body.List)-1].(*ast.ReturnStmt); isRet && rs != nil {
+								exitArm[is.Body] = true
+							}
+						}
+						return true
+					})
+					ast.Inspect(fd.Body, func(x ast.Node) bool {
+						if _, isDefer := x.(*ast.DeferStmt); isDefer {
+							return false // runs at function exit, not here
+						}
+						if blk, isBlk := x.(*ast.BlockStmt); isBlk && exitArm[blk] {
+							return false
+						}
+						if call, ok := x.(*ast.CallExpr); ok && x.Pos() > testPos && x.Pos() < as.Pos() {
 							if _, op := mutexOp(info, call); op == "Unlock" || op == "Lock" {
 								sameCS = false
 							}
@@ -199,6 +227,19 @@ func runC02(c *Ctx) {
 					}
 					if r := defs.resolve1(info, id); isField(info, r, stdinT, "dataType") {
 						return true
+					}
+					// an ordinary local used as the result (unnamed result): every value it is
+					// ever given is the field
+					if v, isVar := info.ObjectOf(id).(*types.Var); isVar && !v.IsField() && len(defs[v]) > 0 {
+						all := true
+						for _, d := range defs[v] {
+							if d == nil || !isField(info, d, stdinT, "dataType") {
+								all = false
+							}
+						}
+						if all {
+							return true
+						}
 					}
 				}
 				return isField(info, e, stdinT, "dataType")
